@@ -129,8 +129,11 @@ impl HiArgs {
                 SearchMode::CountMatches if low.invert_match => {
                     *mode = SearchMode::Count;
                 }
-                // treat `-o --count` as `--count-matches`
-                SearchMode::Count if low.only_matching => {
+                // treat `-o --count` as `--count-matches`, unless inverted,
+                // where (as above) there are only lines to count
+                SearchMode::Count
+                    if low.only_matching && !low.invert_match =>
+                {
                     *mode = SearchMode::CountMatches;
                 }
                 _ => {}
